@@ -26,6 +26,7 @@ pub fn gen(family: &str, r: &mut Rng) -> Scenario {
         "mem" => mem(r),
         "scan" => scan(r),
         "pin" => pin(r),
+        "pinf" => pinf(r),
         "kf1" => kf1(r),
         "kf12" => kf12(r),
         _ => ring(r, false),
@@ -429,6 +430,30 @@ fn pin(r: &mut Rng) -> Scenario {
         main.push(Op::SendRetry(0, 3));
     }
     Scenario { cfg, main, epilogue: Epilogue::Probe, family: "pin".into() }
+}
+
+/// the transient pin and the parked sender (F17, fixed): consumer A of a shared stream of a futures queue holds a
+/// pin while its sibling B takes the position and returns (its wake-up of the senders finds nobody parked); the
+/// sender task finds the slot pinned, reports Full and parks; A gives up the pin, finds nothing to receive and
+/// waits — in a blocking `recv` without having woken the sender. Run under `Strategy::Script`.
+fn pinf(r: &mut Rng) -> Scenario {
+    let cap = pick(r, &[1u64, 1, 2]);
+    let n = crate::monitors::valid_wrap(cap);
+    let bcast = r.chance(3, 4);
+    // (the move-out futures queue has no constructor with spin counts)
+    let cfg = QCfg { bcast, fut: true, cap, wait: WaitCfg::Busy, fspins: if bcast { Some((1, 1)) } else { None } };
+    let mut main = Vec::new();
+    main.push(Op::Clone(1)); // slot 2: sibling handle B of stream 0
+    for _ in 0..n {
+        main.push(Op::StartSend(0));
+    }
+    let a_op = if r.chance(2, 3) { Op::Recv(0) } else { Op::Poll(0) };
+    main.push(Op::Spawn(vec![1], vec![a_op, Op::TryRecv(0)]));
+    main.push(Op::Spawn(vec![2], vec![Op::TryRecv(0)]));
+    main.push(Op::SinkSend(0));
+    main.push(Op::SinkSend(0));
+    main.push(Op::Drop(0));
+    Scenario { cfg, main, epilogue: Epilogue::Probe, family: "pinf".into() }
 }
 
 /// known finding F1: add_stream by a handle that shares its stream with a consumer that keeps receiving
